@@ -179,7 +179,12 @@ static inline void run_batch_reader(carquet_reader_t* r, const Table& t, const B
         if (statuses) statuses->push_back(st);
         if (tr) tr->add((uint64_t)st);
         if (st == CARQUET_ERROR_END_OF_DATA || (st == CARQUET_OK && !b)) { if (b) cq::row_batch_free(b); break; }
-        if (st != CARQUET_OK && error_seen) { *error_seen = true; if (b) cq::row_batch_free(b); cq::batch_reader_free(br); return; }
+        if (st != CARQUET_OK && error_seen) {
+            *error_seen = true; if (b) cq::row_batch_free(b);
+            // a caller may well call next() again after an error: whatever it answers, it must be safe
+            carquet_row_batch_t* again = nullptr; (void)cq::batch_reader_next(br, &again); if (again) cq::row_batch_free(again);
+            cq::batch_reader_free(br); return;
+        }
         SIM_CHECK(st == CARQUET_OK, "batch.next_failed", "%s: batch_reader_next returned %d on a valid file after %lld rows", where, (int)st, (long long)delivered);
         int64_t nrows = carquet_row_batch_num_rows(b);
         if (tr) tr->add((uint64_t)nrows);
